@@ -35,7 +35,7 @@ ASSUMPTIONS = [
     "the slots are read through their name-mangled class attributes",
 ]
 TYPECHECK_OK = True  # every generated value conforms to its annotation: some shards run with RUNTIME_TYPE_CHECK on
-MUST_SEE = ["falsy_origin_object", "origin_object_made_of_placeholders", "source_dump_loaded_before_calls", "tagless_payload_recreated", "flag_only_dialect", "equal_but_distinct_source_objects", "faults_outside_the_exception_tree", "indented_json_with_options", "option_spelled_false", "raised_with_options", "failpoints_fired", "failpoint_nested", "default_after_fault", "bomb_positions", "corrupt_payloads", "option_subsets", "mappings_walked", "explorer_children_checked", "index_sources_checked", "deser_with_options", "repo_tests_slot_checks", "shared_options_object"]
+MUST_SEE = ["source_index_zero_in_use", "falsy_origin_object", "origin_object_made_of_placeholders", "source_dump_loaded_before_calls", "tagless_payload_recreated", "flag_only_dialect", "equal_but_distinct_source_objects", "faults_outside_the_exception_tree", "indented_json_with_options", "option_spelled_false", "raised_with_options", "failpoints_fired", "failpoint_nested", "default_after_fault", "bomb_positions", "corrupt_payloads", "option_subsets", "mappings_walked", "explorer_children_checked", "index_sources_checked", "deser_with_options", "repo_tests_slot_checks", "shared_options_object"]
 CONFIG = {
     "quick": {"shards": 16, "trees": 16, "subsets": 14, "failpoint_trees": 1, "watchdog_s": 600},
     "thorough": {"shards": 32, "trees": 40, "subsets": 48, "failpoint_trees": 4, "watchdog_s": 3400},
@@ -100,6 +100,12 @@ def run_shard(ctx):
     if f"{P}Bomb" not in ns:
         exec(compile(PRELUDE_BOMB.replace("{P}", P), "<c16 bomb>", "exec", dont_inherit=True), ns)
     Holder, Bomb = ns[f"{P}Holder"], ns[f"{P}Bomb"]
+    if ctx.shard % 2 == 0:
+        # a new index-based dump starts from an empty source registry: the first source of the model gets index 0 (an index
+        # like any other); in the other shards index 0 belongs to a source no tree refers to
+        Source.clear_registry()
+        O._SRC_CACHE.clear()
+        ctx.count("source_index_zero_in_use")
     for i in range(O.N_SOURCES):
         O.source(i)
 
